@@ -418,7 +418,13 @@ def _flex_edges(
   flexedge_velocity_out[worldid, edgeid] = vel
 
   rowadr = flexedge_J_rowadr[edgeid]
-  nnz_offset = 0
+
+  # row entries follow flexedge_J_colind (ascending dof order): the body with the lower dof address comes first
+  nnz_offset1 = int(0)
+  nnz_offset2 = dofnum1
+  if dofnum1 > 0 and dofnum2 > 0 and body_dofadr[b2] < body_dofadr[b1]:
+    nnz_offset1 = dofnum2
+    nnz_offset2 = 0
 
   # body1 DOFs: b1 is in subtree, b2 is not -> jacdif = 0 - jacp1 = -jacp1
   if dofnum1 > 0:
@@ -429,8 +435,7 @@ def _flex_edges(
       cdof_ang = wp.spatial_top(cdof)
       cdof_lin = wp.spatial_bottom(cdof)
       jacp1 = cdof_lin + wp.cross(cdof_ang, offset1)
-      flexedge_J_out[worldid, rowadr + nnz_offset + k] = wp.dot(-jacp1, edge)
-    nnz_offset += dofnum1
+      flexedge_J_out[worldid, rowadr + nnz_offset1 + k] = wp.dot(-jacp1, edge)
 
   # body2 DOFs: b2 is in subtree, b1 is not -> jacdif = jacp2 - 0 = jacp2
   if dofnum2 > 0:
@@ -441,7 +446,7 @@ def _flex_edges(
       cdof_ang = wp.spatial_top(cdof)
       cdof_lin = wp.spatial_bottom(cdof)
       jacp2 = cdof_lin + wp.cross(cdof_ang, offset2)
-      flexedge_J_out[worldid, rowadr + nnz_offset + k] = wp.dot(jacp2, edge)
+      flexedge_J_out[worldid, rowadr + nnz_offset2 + k] = wp.dot(jacp2, edge)
 
 
 @event_scope
